@@ -29,7 +29,19 @@ def drive(tier):
 
     def roundtrip(tid, k, spk):
         def f():
-            a = CBitcoinAddress.from_scriptPubKey(CScript(spk))
+            # two public ways to the same address: from the script, or from the payload through the class's own constructor
+            direct = None
+            if k % 2 == 0:
+                from bitcoin.wallet import P2SHBitcoinAddress, P2WPKHBitcoinAddress, P2WSHBitcoinAddress
+                if len(spk) == 25 and spk[:3] == b"\x76\xa9\x14" and spk[23:] == b"\x88\xac":
+                    direct = lambda: P2PKHBitcoinAddress.from_bytes(spk[3:23])
+                elif len(spk) == 23 and spk[:2] == b"\xa9\x14" and spk[22:] == b"\x87":
+                    direct = lambda: P2SHBitcoinAddress.from_bytes(spk[2:22])
+                elif len(spk) == 22 and spk[:2] == b"\x00\x14":
+                    direct = lambda: P2WPKHBitcoinAddress.from_bytes(0, spk[2:])
+                elif len(spk) == 34 and spk[:2] == b"\x00\x20":
+                    direct = lambda: P2WSHBitcoinAddress.from_bytes(0, spk[2:])
+            a = direct() if direct else CBitcoinAddress.from_scriptPubKey(CScript(spk))
             t = str(a)
             a2 = CBitcoinAddress(t)
             return {"k": "ret", "cls": cls_of(a), "payload": b2l(a.to_bytes()), "text": text(t), "cls2": cls_of(a2),
